@@ -212,6 +212,15 @@ def build_unit(unit_path, repo_root, twin=False):
     for h in header:
         out.append(Line(h, ("gen", "header")))
     _process_lines(raw, unitfile, repo_root, out, log, meta, twin, set())
+    # one Line object per physical line (multi-line impl headers etc.), so that line → origin stays exact
+    flat = []
+    for l in out:
+        if "\n" in l.text:
+            for t in l.text.split("\n"):
+                flat.append(Line(t, l.origin, l.label))
+        else:
+            flat.append(l)
+    out = flat
     out.append(Line("} // verus!", ("gen", "footer")))
     out.append(Line("fn main() {}", ("gen", "footer")))
     text = "\n".join(l.text for l in out) + "\n"
@@ -245,7 +254,7 @@ def _process_lines(raw, unitfile, repo_root, out, log, meta, twin, seen):
                     inc = f.read().split("\n")
                 _process_lines(inc, words[0], repo_root, out, log, meta, twin, seen)
             elif name == "opaque":
-                derives = "Clone, Debug, PartialEq"
+                derives = "Clone, Debug, PartialEq, Eq, Hash, PartialOrd, Ord"
                 for w in words:
                     if w.startswith("derive="):
                         derives = w[7:].replace("+", ", ")
@@ -315,6 +324,7 @@ def _do_extract(raw, i, unitfile, repo_root, out, log, meta, twin=False):
         kind, name, rest = mm.group(1), mm.group(2), mm.group(3)
     flags = set(rest.split())
     ex = extract(repo_root, rel, kind, name, container or None)
+    container = list(ex.container or [])   # (an ambiguous `impl X` header is resolved to `impl X#k` by extract)
     text = ex.text
     if "noattr" not in flags:
         text = normalize.drop_attributes(text, log)
